@@ -129,6 +129,7 @@ def run(ctx):
     for row in rows[:1] + rows[len(rows) // 2:len(rows) // 2 + 1]:
         ev.sample({k: (v if not isinstance(v, list) or len(v) < 40 else v[:40] + ["..."]) for k, v in row.items()})
     run_msgs(ctx, drv)
+    run_aead(ctx, drv)
     run_other(ctx)
     ev.cov["exhaustive"] = False
     ev.assume("fragment scripts are exhaustive within the bounds of BOUNDS[tier] (fragments, total length, Get/Reloc marks) over the "
@@ -151,6 +152,64 @@ def run_msgs(ctx, drv):
     ctx.ev.cov["message_history_calls_validated"] = n
     ctx.ev.cov["message_histories_replayed"] = len(d)
     ctx.ev.cov["traces_validated_against_impl"] += n
+
+
+def run_aead(ctx, drv):
+    """DWP / CHE with the cipher half and the authentication half decoupled (spec/sm/StepAead.tla): E and A are separate
+    tokens, Get / Verify / Reloc marks anywhere.  quick: alphabet {5, 16, 21}, a seeded third of the scripts; thorough:
+    alphabet {1, 5, 7, 15, 16, 21}, a seeded sample of 40000 per direction."""
+    nstates = ntrans = 0
+    cmds = []
+
+    def mc(d):
+        gdir = ctx.path("gen_aead" + d)
+        os.makedirs(gdir, exist_ok=True)
+        cfg = ctx.path("aead%s.cfg" % d)
+        with open(cfg, "w") as f:
+            f.write("SPECIFICATION Spec\nCONSTANTS Dir = \"%s\"\n Blk = 16\n MaxToks = 4\n MaxTotal = 40\n MaxMarks = 2\n Alphabet <- %s\n"
+                    "INVARIANT Ranges Bookkeeping Order Emit\nPROPERTY MarksInvisible\n" % (d, "Alpha" if ctx.quick else "AlphaFull"))
+        return d, vlib.tlc("MC_StepAead", cfg, env={"GEN_DIR": gdir}, timeout=2400, workers=6 if ctx.quick else 8, quiet=True), gdir
+
+    for d, r, gdir in vlib.parallel([(lambda d=d: mc(d)) for d in ("E", "D")], n=2):
+        if vlib.tlc_infra_failed(r) or r.rc != 0:
+            ctx.note_inconclusive("MC_StepAead(%s) gave no verdict / violates its own invariants: rc=%s %s" % (d, r.rc, (r.violation or r.error or "")[:300]))
+            continue
+        nstates += r.distinct
+        ntrans += r.generated
+        ss = sorted(json.load(open(f))["script"] for f in glob.glob(os.path.join(gdir, "*.json")))
+        ctx.ev.cov["scripts_aead" + d] = len(ss)
+        cap = (len(ss) + 2) // 3 if ctx.quick else 40000
+        if len(ss) > cap:
+            ss = sorted(ss, key=lambda x: hashlib.sha256(("%d:%s" % (ctx.seed, x)).encode()).hexdigest())[:cap]
+        for bi, b in enumerate(("dwp" + d, "che" + d)):
+            for si, x in enumerate(ss):
+                cmds.append("steps b=%s klen=%d reloc=%d script=%s\n" % (b, (16, 24, 32)[(si + bi) % 3], (si + bi) % 2, x))
+    ctx.ev.cov["states"] += nstates
+    ctx.ev.cov["transitions"] += ntrans
+    if not cmds:
+        return
+    out_path = ctx.path("steps_aead.ndjson")
+    rc, _, err = vlib.run_harness(drv, ["steps"], stdin="".join(cmds).encode(), out_path=out_path, env={"VERIF_SEED": ctx.seed}, timeout=1800)
+    rows = [json.loads(l) for l in open(out_path) if l.strip().endswith("}")]
+    if rc != 0:
+        nxt = cmds[len(rows)].strip() if len(rows) < len(cmds) else "?"
+        ctx.violation("steps-crash:" + nxt.replace(" ", "_"), "AEAD bundle crashed / sanitizer report on a legal decoupled script: %s\n%s" % (nxt, err[-1500:]),
+                      {"command": nxt, "stderr": err[-4000:]})
+    shards = vlib.shard(rows, max(1, (len(rows) + 3999) // 4000))
+    results = vlib.parallel([(lambda sh=sh: vlib.validate_lines(ctx, "Trace_Belt", sh, timeout=3000, workers=2)) for sh in shards], n=6)
+    nval = 0
+    for sh, (n, bad, r) in zip(shards, results):
+        if n < len(sh):
+            ctx.note_inconclusive("Trace_Belt evaluated %d of %d decoupled AEAD script lines (rc=%s)" % (n, len(sh), r.rc))
+        nval += n
+        for i in bad:
+            row = sh[i - 1]
+            ctx.violation("steps:%s:%s%s" % (row["b"], row["script"], ":reloc" if row.get("reloc") else ""),
+                          "bundle %s: decoupled script %s gives a result different from the one-shot value (or a wrong Get/Verify)" % (row["b"], row["script"]),
+                          {"line": row})
+        ctx.ev.add("trace_states", r.distinct)
+    ctx.ev.cov["decoupled_aead_scripts_replayed"] = nval
+    ctx.ev.cov["traces_validated_against_impl"] += nval
 
 
 def run_other(ctx):
